@@ -251,6 +251,11 @@ def c16_2(rep, ix, f, sh):
     apps = [x for x in ast.walk(wl) if isinstance(x, ast.Call) and isinstance(x.func, ast.Attribute) and x.func.attr == "append"]
     ok = False
     grid = None
+    # the entry may be bound to a local first (`entry = (idx, cmd)`), once per operation
+    if len(apps) == 1 and apps[0].args and isinstance(apps[0].args[0], ast.Name):
+        defs = [n for n in walk_shallow(lp) if isinstance(n, ast.Assign) and len(n.targets) == 1 and isinstance(n.targets[0], ast.Name) and n.targets[0].id == apps[0].args[0].id]
+        if len(defs) == 1 and defs[0] in lp.body and isinstance(defs[0].value, (ast.List, ast.Tuple)):
+            apps[0].args[0] = defs[0].value
     if len(apps) == 1 and apps[0].args and isinstance(apps[0].args[0], (ast.List, ast.Tuple)) and len(apps[0].args[0].elts) == 2 and u(apps[0].args[0].elts[0]) == idx:
         recv = apps[0].func.value
         if isinstance(recv, ast.Subscript) and u(recv.slice) == q:
